@@ -464,10 +464,25 @@ func inheritCommonProperties(parent, child parse.Node, fromAugment bool) {
 	child.AddChildren(parent.ChildrenByType(parse.NodeStatus)...)
 }
 
+// The name of the module a statement is written in; what is written in a
+// submodule belongs to the module the submodule belongs to.
+func owningModule(n parse.Node) string {
+	r := n.Root()
+	if r == nil {
+		return ""
+	}
+	if r.Type() == parse.NodeSubmodule {
+		if b := r.ChildByType(parse.NodeBelongsTo); b != nil {
+			return b.Name()
+		}
+	}
+	return r.Name()
+}
+
 func (c *Compiler) assertReferenceStatus(src, dst parse.Node, parentStatus schema.Status) {
 
 	// Only check within the same module
-	if src.Root() != dst.Root() {
+	if owningModule(src) != owningModule(dst) {
 		return
 	}
 
@@ -522,7 +537,7 @@ func (c *Compiler) applyUsesToNode(mod, nod, use parse.Node, parentStatus schema
 	}
 
 	var assertRef func(parse.Node)
-	if use.Root() == group.Root() {
+	if owningModule(use) == owningModule(group) {
 		c.assertReferenceStatus(use, group, parentStatus)
 		assertRef = func(dst parse.Node) {
 			c.assertReferenceStatus(use, dst, parentStatus)
